@@ -311,7 +311,7 @@ func runC16Payload(c *C16PayloadCase) error {
 	if err != nil && h.IsInconclusive(err) {
 		err2 := runC16PayloadOnce(c)
 		if err2 != nil && h.IsInconclusive(err2) {
-			return fmt.Errorf("ingestion did not catch up after the payload history in two fresh attempts (stalled pipeline): %v", strings.Replace(err2.Error(), "inconclusive: ", "", 1))
+			return fmt.Errorf("ingestion did not catch up after the payload history in two fresh attempts (stalled pipeline): %v", strings.Replace(err2.Error(), "inconclusive: ", "", -1))
 		}
 		return err2
 	}
